@@ -128,11 +128,11 @@ pub fn meta(prop: &str, thorough: bool) -> Meta {
             )
         }
         "C18" => (
-            "choice tree: binary (debug; thorough also release) -> rule text -> data text -> delivery form (argument / argument + junk on stdin / stdin without argument / stdin with '-'); deep nesting around the parser limit; large documents; chains r1 -> r2 over the valid texts; leaf = one run of the real binary whose stdout and exit status are compared with the library in-process; non-trivial = every run; distinct = distinct (argv, stdin)".into(),
+            "choice tree: binary (debug and release) -> rule text -> data text -> delivery form (argument / argument + junk on stdin / stdin without argument / stdin with '-'); deep nesting around the parser limit; large documents; chains r1 -> r2 over the valid texts; leaf = one run of the real binary whose stdout and exit status are compared with the library in-process; non-trivial = every run; distinct = distinct (argv, stdin)".into(),
             json!({"rule_texts": crate::boundary::rule_texts(thorough).len(), "data_texts": crate::boundary::data_texts(thorough).len(), "forms": 4}),
         ),
         "C19" => (
-            "choice tree: extension build (debug; thorough also release) -> rule object -> data object -> entry point and optional-argument combination (17 call forms) + malformed texts + broken serializers; leaf = one call of the real package compared type-strictly with the library reached through the harness oracle, or ValueError; plus E2 at the wrapper level: DFS over sequences of calls from a 47-call alphabet whose states are os.fork() snapshots of the interpreter; non-trivial = every call; distinct = distinct call description".into(),
+            "choice tree: extension build (debug and release) -> rule object -> data object -> entry point and optional-argument combination (17 call forms) + malformed texts + broken serializers; leaf = one call of the real package compared type-strictly with the library reached through the harness oracle, or ValueError; plus E2 at the wrapper level: DFS over sequences of calls from a 47-call alphabet whose states are os.fork() snapshots of the interpreter; non-trivial = every call; distinct = distinct call description".into(),
             json!({"rules": 62, "datas": 26, "call_forms": 17, "history_depth": if thorough { 3 } else { 2 }}),
         ),
         _ => (String::new(), json!({})),
